@@ -182,7 +182,7 @@ def execute_large(case):
     return {"ok": not fails, "failures": fails[:3], "outcome": "large-ok" if not fails else fails[0]["sig"]["kind"], "nontrivial": True, "n_sel": n}
 
 
-LARGE = [("IU2", 1300, 40000, 64), ("IU2", 1300, 40000, None), ("C*8", 1200, 2000, 64), ("C*8", 1200, 2000, None), ("IU2", 5120, 4, None), ("IU2", 4096, 3, 4096), ("IU2", 2500, 8, 100), ("C*8", 300, 40000, 10)]
+LARGE = [("IU2", 1300, 40000, 64), ("IU2", 1300, 40000, None), ("C*8", 1200, 2000, 64), ("C*8", 1200, 2000, None), ("IU2", 5120, 4, None), ("IU2", 4096, 3, 4096), ("IU2", 2500, 8, 100), ("IU2", 2500, 8, 4), ("C*8", 1200, 3, 2), ("C*8", 300, 40000, 10)]
 
 
 def run(res, tier, seed):
